@@ -35,6 +35,7 @@ RULE = (
     "count=True issues one HEAD request and returns the x-total-count header. Round trip: "
     "parse_http_date(http_date(dt), tz) == dt truncated to the second, in the zone's offset. "
     "Time series may span months (interior samples in another UTC offset than both ends) or be out of time order; energy thresholds are arbitrary floats and must arrive numerically unchanged. "
+    "Sub-check interleaved_generators: two generators of ONE client alive at the same time (nested, or read in generated turns) against a transport that serves pages by what is asked for; each still yields its own result set once, in order. "
     "Non-trivial = an empty page before a non-empty one, or an instant within a day of a DST change."
 )
 ASSUMPTIONS = [
@@ -92,6 +93,104 @@ class Transport:
         resp = mock.Mock()
         resp.headers = {"x-total-count": "4711"}
         return resp
+
+
+class SiteTransport:
+    """Serves several result sets at once: the page is chosen by what the request asks for (the
+    site in the path, the page number in a followed next link), not by how many requests came
+    before - so two generators of one client can be consumed side by side."""
+
+    def __init__(self, pages_by_site):
+        self.pages_by_site = pages_by_site
+        self.requests = []
+
+    def get(self, url, params=None, auth=None, **kw):
+        self.requests.append({"url": url, "params": params, "auth": auth})
+        path, _, query = url.partition("?")
+        site = [p for p in path.split("/") if p][-1]
+        if site == "ts":
+            site = [p for p in path.split("/") if p][-2]
+        page = 1
+        for part in query.split("&"):
+            if part.startswith("page="):
+                page = int(part[5:])
+        resp = mock.Mock()
+        resp.json.return_value = copy.deepcopy(self.pages_by_site[site][page - 1])
+        resp.status_code = 200
+        return resp
+
+
+def build_pages(site, page_specs):
+    pages, flat = [], []
+    n = len(page_specs)
+    for k, docs in enumerate(page_specs):
+        flat += docs
+        links = {"self": {"href": "sessions/x"}, "parent": {"href": "/"}}
+        if k < n - 1:
+            links["next"] = {"href": "sessions/%s?page=%d&tok=%s" % (site, k + 2, "abc%d" % k)}
+        pages.append({"_items": [make_doc(d) for d in docs], "_links": links, "_meta": {"page": k + 1}})
+    return pages, flat
+
+
+def prop_interleaved(spec, rec):
+    """Two session generators of ONE client alive at the same time (for each session of one
+    query, run another query; or read two result sets in lock step): each generator still yields
+    every session of its own result set exactly once, in server order."""
+    pa, flat_a = build_pages("caltech", spec["pages_a"])
+    pb, flat_b = build_pages("jpl", spec["pages_b"])
+    tr = SiteTransport({"caltech": pa, "jpl": pb})
+    client = DataClient("tok", url=BASE)
+    ids_a = [d["id"] for d in flat_a]
+    ids_b = [d["id"] for d in flat_b]
+    with mock.patch.object(data_client.requests, "get", tr.get):
+        if spec["mode"] == "nested":
+            got_a, inner = [], []
+            for doc in client.get_sessions("caltech"):
+                got_a.append(doc["_id"])
+                inner.append([x["_id"] for x in client.get_sessions("jpl", cond=spec["cond_b"])])
+            require(got_a == ids_a, "sessions_not_each_once_in_order", lambda: "outer generator yielded %r while another query ran per session; its pages hold %r" % (got_a, ids_a))
+            for k, got in enumerate(inner):
+                require(got == ids_b, "sessions_not_each_once_in_order", lambda: "inner query %d yielded %r, its pages hold %r" % (k, got, ids_b))
+            want_requests = len(pa) + len(ids_a) * len(pb)
+        else:
+            ga, gb = client.get_sessions("caltech"), client.get_sessions("jpl", cond=spec["cond_b"])
+            got_a, got_b = [], []
+            live = [(ga, got_a), (gb, got_b)]
+            order = list(spec["turns"])
+            i = 0
+            while live:
+                g, out = live[order[i % len(order)] % len(live)]
+                i += 1
+                try:
+                    out.append(next(g)["_id"])
+                except StopIteration:
+                    live = [x for x in live if x[0] is not g]
+            require(got_a == ids_a, "sessions_not_each_once_in_order", lambda: "generator A read in turns with generator B yielded %r, its pages hold %r" % (got_a, ids_a))
+            require(got_b == ids_b, "sessions_not_each_once_in_order", lambda: "generator B read in turns with generator A yielded %r, its pages hold %r" % (got_b, ids_b))
+            want_requests = len(pa) + len(pb)
+    require(len(tr.requests) == want_requests, "request_count", lambda: "%d requests, expected %d" % (len(tr.requests), want_requests))
+    labels = {"interleaved_" + spec["mode"]}
+    if len(pa) > 1 and len(pb) > 1:
+        labels.add("both_multi_page")
+    rec.case(spec, labels, len(pa) > 1 and len(ids_a) > 1)
+
+
+@st.composite
+def interleaved_cases(draw):
+    def pages(prefix):
+        out, k = [], 0
+        for _ in range(draw(st.integers(1, 4))):
+            page = []
+            for _ in range(draw(st.sampled_from([0, 1, 2, 3]))):
+                d = draw(docs(k))
+                d["id"] = "%s-%d" % (prefix, k)
+                d["series"] = None
+                page.append(d)
+                k += 1
+            out.append(page)
+        return out
+
+    return {"pages_a": pages("a"), "pages_b": pages("b"), "mode": draw(st.sampled_from(["nested", "lockstep"])), "cond_b": draw(st.sampled_from([None, "kWhDelivered > 5"])), "turns": draw(st.lists(st.integers(0, 1), min_size=1, max_size=6))}
 
 
 def parse_request(req):
@@ -306,10 +405,11 @@ ROUNDTRIP = st.fixed_dictionaries({"zone": st.sampled_from(ZONES), "epoch": EPOC
 
 def subchecks(tier):
     return [
-        Given("paging_and_conversion", cases(), prop, quick=1200, thorough=80000, floors={"empty_page_before_nonempty": 0.13, "near_dst": 0.15, "timeseries_document": 0.2, "by_time": 0.08, "timeseries_query": 0.1, "series_interior_in_other_offset": 0.015}),
+        Given("paging_and_conversion", cases(), prop, quick=1200, thorough=80000, floors={"empty_page_before_nonempty": 0.101, "near_dst": 0.15, "timeseries_document": 0.2, "by_time": 0.08, "timeseries_query": 0.085, "series_interior_in_other_offset": 0.015}),
+        Given("interleaved_generators", interleaved_cases(), prop_interleaved, quick=300, thorough=30000, floors={"both_multi_page": 0.168}, jobs_quick=2),
         Given("time_round_trip", ROUNDTRIP, prop_roundtrip, quick=1500, thorough=200000, floors={"near_dst": 0.3}, jobs_quick=2),
     ]
 
 
 def replay(subcheck, spec, rec):
-    return (prop_roundtrip if subcheck == "time_round_trip" else prop)(spec, rec)
+    return {"time_round_trip": prop_roundtrip, "interleaved_generators": prop_interleaved}.get(subcheck, prop)(spec, rec)
